@@ -33,7 +33,7 @@ ASSUMPTIONS = [
     "when the start() Deferred fires is not constrained, only that it has fired exactly once when the loop has ended "
     "(stop()/failure happened and no function Deferred is outstanding)",
 ]
-MIN = {"quick": {"evaluations": 780000, "nontrivial": 63000, "outcomes": 7},
+MIN = {"quick": {"evaluations": 1000000, "nontrivial": 110000, "outcomes": 8},
        "thorough": {"evaluations": 14800000, "nontrivial": 480000, "outcomes": 7}}
 
 _Q = dict(L=4, intervals=[0.5, 1.5], advances=[0.25, 0.5, 1.5, 2.5, 7.0], offsets=[0.0, 0.75],
